@@ -409,20 +409,25 @@ class Executor:
                 continue
             A = G[t.Union[first]]     # type: ignore
             B = G[t.Union[second]]    # type: ignore
+            from pane.types import ValueOrList
             if len(Executor._GEN) < 3:
                 import pane.annotations as _A
                 T2 = t.TypeVar('T2')
                 cond = _A.len_range(min=0, max=5)
                 G2 = _types.new_class('GenNestC10', (pane.PaneBase, t.Generic[T2]), {}, lambda ns: ns.update(
-                    {'__annotations__': {'nested': t.Optional[t.List[T2]], 'ann': t.Annotated[t.List[T2], cond]}}))
+                    {'__annotations__': {'nested': t.Optional[t.List[T2]], 'ann': t.Annotated[t.List[T2], cond], 'vol': ValueOrList[T2]}}))
                 Executor._GEN.append(G2)
             G2 = Executor._GEN[2]
             # ... also where the type variable sits below another union or an annotation (typing caches subscriptions of those by
             # *equality* of the arguments, and unions compare equal whatever the order of their members)
-            for (Ty, order) in ((G2[t.Union[first]], first), (G2[t.Union[second]], second)):     # type: ignore
-                (k, r) = outcome(lambda: pane.from_data({'nested': [1], 'ann': [1]}, Ty))
+            (kq, pairs) = outcome(lambda: ((G2[t.Union[first]], first), (G2[t.Union[second]], second)))     # type: ignore
+            if kq != 'ok':
+                self.ctx.fail('history-independent', 'generic-subscription-union-order-nested', f"G2[Union[...]] in both member orders, one after the other: {type(pairs).__name__}: {str(pairs)[:200]}")
+                return
+            for (Ty, order) in pairs:
+                (k, r) = outcome(lambda: pane.from_data({'nested': [1], 'ann': [1], 'vol': [1]}, Ty))
                 want = order[0](1)
-                if k != 'ok' or type(r.nested[0]) is not type(want) or type(r.ann[0]) is not type(want):
+                if k != 'ok' or type(r.nested[0]) is not type(want) or type(r.ann[0]) is not type(want) or type(list(r.vol)[0]) is not type(want):
                     self.ctx.fail('history-independent', 'generic-subscription-union-order-nested',
                                   f"class G2(Generic[T]) with fields nested: Optional[List[T]], ann: Annotated[List[T], len_range(0, 5)]; "
                                   f"G2[Union[{first[0].__name__}, {first[1].__name__}]] subscripted first, then G2[Union[{second[0].__name__}, {second[1].__name__}]]: "
